@@ -1,6 +1,6 @@
 //go:build verif
 
-package wazero
+package wazero_runtime
 
 import (
 	"math/big"
